@@ -293,6 +293,16 @@ pub fn run(ctx: &Ctx) -> Report {
     rep.run_stage("hostile", hostile_case, ctx.cases(40_000, 1_800_000), check_hostile);
     let cfg = GenCfg { plain_sourcefile_headers: true, ..GenCfg::default() };
     rep.run_stage("mutants", move || mutate::hostile_case(&cfg), ctx.cases(20_000, 900_000), check_mutant);
+    let scale: Vec<super::scale::ScaleCase> = super::scale::cases(ctx, "C13");
+    rep.run_enum("scale", &scale, |c: &super::scale::ScaleCase, st: &mut Stats| {
+        let (file, _) = super::scale::build(c.kind, c.n);
+        let b = file.render(&crate::gen::mapping::Render::default());
+        st.class("scale case through the whole pipeline");
+        pipeline_opt(&b, 7, st, true).map_err(|mut f| {
+            f.msg = crate::engine::truncate(&f.msg, 1200);
+            f
+        })
+    });
     rep.run_stage("strings", strings_case, ctx.cases(40_000, 1_800_000), check_strings);
     rep.run_stage(
         "bytes",
@@ -309,6 +319,11 @@ pub fn replay(stage: &str, case: &Value) -> Check {
     match stage {
         "hostile" => check_hostile(&serde_json::from_value(case.clone()).map_err(de)?, &mut st),
         "mutants" => check_mutant(&serde_json::from_value(case.clone()).map_err(de)?, &mut st),
+        "scale" => {
+            let c: super::scale::ScaleCase = serde_json::from_value(case.clone()).map_err(de)?;
+            let (file, _) = super::scale::build(c.kind, c.n);
+            pipeline_opt(&file.render(&crate::gen::mapping::Render::default()), 7, &mut st, true)
+        }
         "strings" => check_strings(&serde_json::from_value(case.clone()).map_err(de)?, &mut st),
         "bytes" => {
             let c: RawCase = serde_json::from_value(case.clone()).map_err(de)?;
